@@ -18,8 +18,8 @@ CONSTANTS MaxMembers, NamesEmit
 VARIABLE ms
 Pool == {Field("A", "int"), Field("A", "string"), Field("B", "int"), Field("c", "int"),
          Embed("I1", FALSE), Embed("I2", FALSE), Embed("I3", FALSE), Embed("I4", FALSE), Embed("D", FALSE), Embed("E", FALSE),
-         Embed("I1", TRUE), Embed("I3", TRUE), Embed("I4", TRUE), Embed("D", TRUE), Embed("I5", FALSE)}
-Names == {"A", "B", "c", "M", "Z", "I1", "I3", "D"}
+         Embed("I1", TRUE), Embed("I3", TRUE), Embed("I4", TRUE), Embed("D", TRUE), Embed("I5", FALSE), Embed("u1", FALSE)}
+Names == {"A", "B", "c", "M", "Z", "I1", "I3", "D", "u1", "Q"}
 
 Init == ms = <<>>
 Next == /\ Len(ms) < MaxMembers
